@@ -122,6 +122,11 @@ def run(ctx: common.Ctx):
     cases = c08.gen_cases(ctx)
     _r.Random(ctx.seed).shuffle(cases)
     tgraph.run_getitem(ctx, cases[:1200 if ctx.tier == "quick" else 20000], styles=("symbolic", "none"), label="getitem-symbolic")
+    # the data-dependent family (mask selection, nonzero, assignments, cumulative_sum, where, tril/triu, broadcast_arrays,
+    # creation with run-time shapes): with symbolic / unknown dims the library must export the size-independent terms of
+    # Model/TGraphScatter.lean, whose theorems (C08MaskGraph, C09Scatter, C12Nonzero, C10Cumsum, …) hold at every shape
+    from .. import scattertie
+    scattertie.run(ctx, 110 if ctx.tier == "quick" else 3000, styles=("symbolic", "none"), label="scatter-symbolic")
 
 
 def report_sized(ctx, recs):
